@@ -50,10 +50,19 @@ def job(a):
         distinct_lb.add(lb)
         area = sum(w * h for (w, h) in ms)
         geo = -(-area // (W * H))
-        if len(set(lbs)) != 1:
-            bads.append(("Instance|lower bound depends on how equal items "
-                         "are listed", W, H, [list(r) for r in variants[-1]],
-                         lbs, 0))
+        # the bound of the other listing of the same items (one row per
+        # item) need not be the same number, but must be a valid bound too
+        for lb2 in set(lbs[1:]) - {lb}:
+            if lb2 < geo or lb2 < 1:
+                bads.append(("Instance|lower bound below the area bound", W,
+                             H, [list(r) for r in variants[-1]], lb2, geo))
+            elif lb2 > geo:
+                cert = F.fits(list(ms), lb2 - 1, W, H, want_cert=True,
+                              stats=states)
+                if cert is not None:
+                    bads.append(("Instance|lower bound exceeds the optimum",
+                                 W, H, [list(r) for r in variants[-1]], lb2,
+                                 cert))
         if lb < geo or lb < 1:
             bads.append(("Instance|lower bound below the area bound", W, H,
                          merged, lb, geo))
